@@ -65,8 +65,95 @@ func rootOf(v ssa.Value) ssa.Value {
 	return v
 }
 
-func (p *Prog) mapOrderFindings(fn *ssa.Function) []orderFinding {
+// iteratorOrderFindings: (a) maps.Keys / maps.Values / maps.All collected or ranged without a sort;
+// (b) a slice captured by a closure that is started as a goroutine (go / errgroup.Go) and appended to
+// there: its element order is goroutine completion order unless it is sorted afterwards.
+func (p *Prog) iteratorOrderFindings(fn *ssa.Function) []orderFinding {
 	var out []orderFinding
+	eachInstr(fn, false, func(_ *ssa.Function, i ssa.Instruction) {
+		c, ok := i.(*ssa.Call)
+		if !ok {
+			return
+		}
+		switch calleeName(&c.Call) {
+		case "maps.Keys", "maps.Values", "maps.All":
+			sorted := false
+			if refs := c.Referrers(); refs != nil {
+				for _, u := range *refs {
+					if uc, ok := u.(*ssa.Call); ok {
+						switch calleeName(&uc.Call) {
+						case "slices.Sorted", "slices.SortedFunc", "slices.SortedStableFunc":
+							sorted = true
+						case "slices.Collect", "slices.AppendSeq":
+							// sorted afterwards in this function?
+							eachInstr(fn, false, func(_ *ssa.Function, j ssa.Instruction) {
+								if sc, ok := j.(*ssa.Call); ok && sortCallees[calleeName(&sc.Call)] && len(sc.Call.Args) > 0 && derivesFromValue(sc.Call.Args[0], uc) {
+									sorted = true
+								}
+							})
+						}
+					}
+				}
+			}
+			out = append(out, orderFinding{fn: fn, site: c.Pos(), mapStr: "iterator " + calleeName(&c.Call), kind: "collected in map iteration order", ok: sorted,
+				detail: map[bool]string{true: "passed to slices.Sorted / sorted after collecting", false: "the elements of " + calleeName(&c.Call) + "(...) are collected in map iteration order and never sorted: the resulting list (and everything hashed or expanded from it) differs from call to call"}[sorted]})
+		}
+	})
+	// (b)
+	for _, g := range fn.AnonFuncs {
+		started := false
+		eachInstr(fn, false, func(_ *ssa.Function, i ssa.Instruction) {
+			switch x := i.(type) {
+			case *ssa.Go:
+				if resolveCalleeDeep(&x.Call) == g {
+					started = true
+				}
+			case *ssa.Call:
+				if strings.HasSuffix(calleeName(&x.Call), "errgroup.Group).Go") {
+					for _, a := range x.Call.Args {
+						if closureOfArg(a) == g {
+							started = true
+						}
+					}
+				}
+			}
+		})
+		if !started {
+			continue
+		}
+		eachInstr(g, false, func(_ *ssa.Function, i ssa.Instruction) {
+			st, ok := i.(*ssa.Store)
+			if !ok {
+				return
+			}
+			fv, ok := st.Addr.(*ssa.FreeVar)
+			if !ok {
+				return
+			}
+			ac, ok := st.Val.(*ssa.Call)
+			if !ok {
+				return
+			}
+			if b, ok := ac.Call.Value.(*ssa.Builtin); !ok || b.Name() != "append" {
+				return
+			}
+			// sorted in the parent afterwards?
+			bind := freeVarBinding(fv)
+			sorted := false
+			eachInstr(fn, false, func(_ *ssa.Function, j ssa.Instruction) {
+				if sc, ok := j.(*ssa.Call); ok && sortCallees[calleeName(&sc.Call)] && len(sc.Call.Args) > 0 && bind != nil && derivesFromValue(sc.Call.Args[0], bind) {
+					sorted = true
+				}
+			})
+			out = append(out, orderFinding{fn: g, site: st.Pos(), mapStr: "goroutine results", kind: "appended in completion order", ok: sorted,
+				detail: map[bool]string{true: "the shared slice is sorted after the goroutines finished", false: "goroutines started from " + fn.Name() + " append to a shared slice: its element order is the order in which they happen to finish (parse timing, -p), and it is never sorted"}[sorted]})
+		})
+	}
+	return out
+}
+
+func (p *Prog) mapOrderFindings(fn *ssa.Function) []orderFinding {
+	out := p.iteratorOrderFindings(fn)
 	loops := loopBlocks(fn)
 	for _, b := range fn.Blocks {
 		for _, in := range b.Instrs {
